@@ -201,6 +201,7 @@ class StepMonitor:
         self.n = 0
         self.limit = 10 ** 12
         self.trips = 0
+        self.trip_log: list = []
         self.recursion_errors = 0
         self.mon.register_callback(self.tool, ev.PY_START, self._start)
         self.mon.register_callback(self.tool, ev.JUMP, self._jump)
@@ -211,6 +212,7 @@ class StepMonitor:
         if self.n > self.limit and code.co_name not in ("__exit__", "__enter__", "__del__"):
             self.limit = self.n + self.GRACE
             self.trips += 1
+            self.trip_log.append("entry of %s (%s)" % (code.co_qualname, code.co_filename.rsplit("/", 1)[-1]))
             raise BudgetExceeded("steps", self.n)
 
     def _jump(self, code: Any, offset: int, dest: int) -> None:
@@ -218,6 +220,7 @@ class StepMonitor:
         if self.n > self.limit:
             self.limit = self.n + self.GRACE
             self.trips += 1
+            self.trip_log.append("loop in %s (%s) at offset %d" % (code.co_qualname, code.co_filename.rsplit("/", 1)[-1], offset))
             raise BudgetExceeded("steps", self.n)
 
     def _raise(self, code: Any, offset: int, exc: BaseException) -> None:
@@ -228,6 +231,7 @@ class StepMonitor:
         self.n = 0
         self.limit = budget
         self.trips = 0
+        self.trip_log = []
         self.recursion_errors = 0
         self.mon.set_events(self.tool, self.events)
 
